@@ -334,7 +334,7 @@ fn is_trigger(op: &WOp) -> bool
     matches!(op, WOp::Mutate(_) | WOp::EntityEvent(_) | WOp::Insert(..) | WOp::RemoveComp(_) | WOp::Despawn(_) | WOp::ResMutate | WOp::Broadcast | WOp::Broadcast1 | WOp::WRun(_))
 }
 
-fn run_inner(case: &WCase, out: &mut WOutcome, run_set_only: bool)
+fn run_inner(case: &WCase, out: &mut WOutcome, prop: &str)
 {
     let n = case.n_entities.clamp(1, 4) as usize;
     let mut app = App::new();
@@ -564,7 +564,13 @@ fn run_inner(case: &WCase, out: &mut WOutcome, run_set_only: bool)
             if got != want
             {
                 out.run_set_mismatch = true;
-                out.violations.push(format!("step {si} {:?}: runs {:?}, expected {:?}", step.op, got, want));
+                // does the difference concern a removal / despawn reaction?
+                let polled = |l: &WLog| l.readings.iter().any(|i| matches!(i, Item::Rem(..) | Item::Desp(..)));
+                let mut diff: Vec<&WLog> = Vec::new();
+                for l in got.iter() { if got.iter().filter(|x| *x == l).count() != want.iter().filter(|x| *x == l).count() { diff.push(l); } }
+                for l in want.iter() { if got.iter().filter(|x| *x == l).count() != want.iter().filter(|x| *x == l).count() { diff.push(l); } }
+                let tag = if diff.iter().any(|l| polled(l)) { " [removal / despawn reaction]" } else { "" };
+                out.violations.push(format!("step {si} {:?}: runs {:?}, expected {:?}{tag}", step.op, got, want));
             }
             for (r, e, before) in counters
             {
@@ -606,8 +612,8 @@ fn run_inner(case: &WCase, out: &mut WOutcome, run_set_only: bool)
                 out.violations.push(format!("step {si}: {} system commands exist, {n_sys} were created (a reactor system was despawned or duplicated)", verif_system_commands(world).len()));
             }
         }
-        // as a side engine (run-set oracle only) a history goes on past findings that are C16's alone
-        if if run_set_only { out.run_set_mismatch } else { !out.violations.is_empty() } { break; }
+        // as a side engine a history goes on past findings that are C16's alone
+        if out.violations.iter().any(|m| relevant_to(prop, m)) { break; }
     }
     let multi = (0..NE).any(|k| m.er[k].iter().filter(|x| !x.0.is_empty()).count() >= 2) || m.classes.get("C16:entity_added").copied().unwrap_or(0) >= 2;
     if multi && partial_removals >= 1 { m.hit("C16:two_entities_and_partial_removal"); }
@@ -633,10 +639,10 @@ fn norm(k: Key, n: u8) -> Key
     }
 }
 
-pub fn run_case(case: &WCase, run_set_only: bool) -> WOutcome
+pub fn run_case(case: &WCase, prop: &str) -> WOutcome
 {
     let mut out = WOutcome{ violations: Vec::new(), run_set_mismatch: false, classes: BTreeMap::new() };
-    let r = std::panic::catch_unwind(std::panic::AssertUnwindSafe(|| run_inner(case, &mut out, run_set_only)));
+    let r = std::panic::catch_unwind(std::panic::AssertUnwindSafe(|| run_inner(case, &mut out, prop)));
     if let Err(p) = r
     {
         let msg = if let Some(s) = p.downcast_ref::<&str>() { s.to_string() } else if let Some(s) = p.downcast_ref::<String>() { s.clone() } else { "panic".into() };
@@ -699,6 +705,26 @@ pub fn decode(bytes: &[u8], max_steps: usize) -> WCase
     case
 }
 
+/// C16 reports everything. As the side engine of another property's check only the part of the oracle that property
+/// shares counts (world reactors are reactors too):
+/// C01 / C06 - a wrong set of runs (a live registration skipped, a removed trigger still scheduling, a neighbour no longer
+/// working); C08 - a wrong set of runs for a removal or despawn; C07 - a world reactor's system despawned (they are
+/// persistent) or duplicated; C13 - its `Local` not continuous, or the system (and its state) gone. A panic counts for all.
+pub fn relevant_to(prop: &str, m: &str) -> bool
+{
+    if prop == "C16" || m.starts_with("panic: ") { return true; }
+    let run_set = m.contains(": runs [");
+    let sys_count = m.contains("system commands exist");
+    match prop
+    {
+        "C01" | "C06" => run_set,
+        "C08" => run_set && m.ends_with("[removal / despawn reaction]"),
+        "C07" => sys_count,
+        "C13" => sys_count || m.contains("sees Local="),
+        _ => false,
+    }
+}
+
 pub struct WrEngine
 {
     pub prop: &'static str,
@@ -706,18 +732,14 @@ pub struct WrEngine
 
 impl WrEngine
 {
-    /// C16 reports everything; as the side engine of C01 / C06 only a wrong set of runs (a live registration skipped,
-    /// a removed trigger still scheduling, a neighbour no longer working) or a panic counts.
     fn relevant(&self, out: &WOutcome) -> Vec<String>
     {
-        if self.prop == "C16" { return out.violations.clone(); }
-        if out.run_set_mismatch { return out.violations.iter().filter(|m| m.contains(": runs [")).cloned().collect(); }
-        out.violations.iter().filter(|m| m.starts_with("panic: ")).cloned().collect()
+        out.violations.iter().filter(|m| relevant_to(self.prop, m)).cloned().collect()
     }
 
     fn outcome(&self, case: &WCase) -> CaseOutcome
     {
-        let out = run_case(case, self.prop != "C16");
+        let out = run_case(case, self.prop);
         let mut o = CaseOutcome::default();
         o.violations = self.relevant(&out);
         o.nontrivial = out.classes.contains_key("C16:two_entities_and_partial_removal");
@@ -751,7 +773,7 @@ impl Engine for WrEngine
     fn shrink_json(&self, case: &Value) -> Value
     {
         let Ok(mut best) = serde_json::from_value::<WCase>(case.clone()) else { return case.clone() };
-        let fails = |c: &WCase| !self.relevant(&run_case(c, self.prop != "C16")).is_empty();
+        let fails = |c: &WCase| !self.relevant(&run_case(c, self.prop)).is_empty();
         loop
         {
             let mut progress = false;
